@@ -18,8 +18,10 @@ import (
 	"flag"
 	"fmt"
 	"math/rand"
+	"runtime"
 	"sort"
 	"strconv"
+	"strings"
 	"time"
 
 	pf "github.com/weedbox/pokerface"
@@ -107,11 +109,19 @@ func (tr *tblRun) project() M {
 }
 
 func (tr *tblRun) emit(kind, op string, seat, id int, x int64, err error) {
+	tr.emitWith(kind, op, seat, id, x, err, nil)
+}
+
+func (tr *tblRun) emitWith(kind, op string, seat, id int, x int64, err error, extra M) {
 	o := tr.opts
-	tr.o.write(M{"kind": kind, "reset": kind == "reset", "run": tr.run, "op": op, "seat": seat, "id": id, "x": clip(x), "err": errStr(err),
+	ln := M{"kind": kind, "reset": kind == "reset", "run": tr.run, "op": op, "seat": seat, "id": id, "x": clip(x), "err": errStr(err),
 		"stuck": tr.stuck, "T": tr.project(),
 		"opt": M{"maxSeats": o.MaxSeats, "maxGames": o.MaxGames, "initial": o.InitialPlayers, "min": o.MinPlayers, "joinable": o.Joinable,
-			"elim": o.EliminateMode, "ante": o.Ante, "dealerBlind": o.Blind.Dealer, "sb": o.Blind.SB, "bb": o.Blind.BB}})
+			"elim": o.EliminateMode, "ante": o.Ante, "dealerBlind": o.Blind.Dealer, "sb": o.Blind.SB, "bb": o.Blind.BB}}
+	for k, v := range extra {
+		ln[k] = v
+	}
+	tr.o.write(ln)
 }
 
 // drain: forget the states queued so far (the callbacks of Join / Leave run inside the call)
@@ -125,11 +135,34 @@ func (tr *tblRun) drain() {
 	}
 }
 
-// settle: wait for the state at which the table waits for a player again, or is closed
+// loopParked: the table loop goroutine waits at the top of its loop for the next game request (an idle table), or has
+// returned.  Read off the goroutine dump: its top frame is tableLoop itself and it is blocked receiving from a channel
+// (while a hand is running the loop is blocked inside startGame instead).
+func loopParked() bool {
+	buf := make([]byte, 1<<20)
+	n := runtime.Stack(buf, true)
+	for _, g := range strings.Split(string(buf[:n]), "\n\n") {
+		if !strings.Contains(g, "table.(*table).tableLoop") {
+			continue
+		}
+		lines := strings.Split(g, "\n")
+		if len(lines) < 2 {
+			return false
+		}
+		return strings.Contains(lines[0], "chan receive") && strings.HasPrefix(lines[1], "github.com/weedbox/pokerface/table.(*table).tableLoop")
+	}
+	return true
+}
+
+// settle: wait for the state at which the table waits for a player again, or is closed, or - a table that waits for
+// more players says nothing - until its loop is parked with nothing queued
 func (tr *tblRun) settle() {
+	deadline := time.Now().Add(30 * time.Second)
+	parked := 0
 	for {
 		select {
 		case ts := <-tr.ch:
+			parked = 0
 			if ts.Status == "closed" {
 				tr.rest()
 				return
@@ -144,9 +177,19 @@ func (tr *tblRun) settle() {
 					return
 				}
 			}
-		case <-time.After(30 * time.Second):
-			tr.stuck = true
-			return
+		case <-time.After(time.Millisecond):
+			if loopParked() && len(tr.ch) == 0 {
+				parked++
+				if parked >= 3 {
+					return
+				}
+			} else {
+				parked = 0
+			}
+			if time.Now().After(deadline) {
+				tr.stuck = true
+				return
+			}
 		}
 	}
 }
@@ -169,7 +212,7 @@ func tableRun(o *potsOut, run int, r *rand.Rand) (wasStuck bool) {
 	opts := table.NewOptions()
 	opts.MaxSeats = 2 + r.Intn(5)
 	opts.MaxGames = 2 + r.Intn(5)
-	opts.Joinable = false
+	opts.Joinable = r.Intn(3) == 0 // a joinable table waits (idle) for more players instead of closing
 	opts.Interval = 0
 	opts.Duration = 3600 * 24
 	if r.Intn(3) == 0 {
@@ -190,6 +233,16 @@ func tableRun(o *potsOut, run int, r *rand.Rand) (wasStuck bool) {
 	bankOf := func() int64 {
 		return []int64{3, 7, 12, 20, 20, 35, 60}[r.Intn(7)]
 	}
+	started := false
+	// Activate: on a running table that waits for players (idle) this may start the hand loop again
+	activate := func(seat int) {
+		idle := started && t.GetState().Status == "idle"
+		e := t.Activate(seat)
+		if idle {
+			tr.settle()
+		}
+		tr.emit("main", "T.Activate", seat, -1, 0, e)
+	}
 	join := func(seat int, sitIn bool) {
 		id := nextID
 		nextID++
@@ -198,8 +251,7 @@ func tableRun(o *potsOut, run int, r *rand.Rand) (wasStuck bool) {
 		tr.drain()
 		tr.emit("main", "T.Join", seat, id, bank, err)
 		if err == nil && sitIn {
-			e := t.Activate(got)
-			tr.emit("main", "T.Activate", got, -1, 0, e)
+			activate(got)
 		}
 	}
 	// seating: at least two players sit in; sometimes a further player who has only joined
@@ -212,13 +264,44 @@ func tableRun(o *potsOut, run int, r *rand.Rand) (wasStuck bool) {
 		join(perm[0], true) // an occupied seat: refused
 	}
 	err := t.Start()
+	started = true
 	tr.settle()
 	tr.emit("main", "T.Start", -1, -1, 0, err)
+	idleTries := 0
 	done := map[int]bool{}
 	lastKey := ""
 	for steps := 0; steps < 1500 && !tr.stuck; steps++ {
 		ts := tr.cur
-		if ts.Status == "closed" || ts.GameState == nil {
+		if ts.Status == "closed" {
+			break
+		}
+		if ts.Status == "idle" {
+			// a joinable table waiting for players: somebody new sits down, somebody with chips comes back - or nobody does
+			idleTries++
+			if idleTries > 4 {
+				break
+			}
+			if r.Intn(2) == 0 {
+				for s := 0; s < opts.MaxSeats; s++ {
+					if _, ok := ts.Players[s]; !ok {
+						join(s, true)
+						break
+					}
+				}
+			} else {
+				for s, p := range ts.Players {
+					if p.Bankroll > 0 {
+						activate(s)
+						break
+					}
+				}
+			}
+			if tr.cur == ts {
+				tr.emit("main", "T.Nop", -1, -1, 0, nil) // nothing could be done: refresh the state, the try counter ends the run
+			}
+			continue
+		}
+		if ts.GameState == nil {
 			break
 		}
 		gs := ts.GameState
@@ -243,7 +326,16 @@ func tableRun(o *potsOut, run int, r *rand.Rand) (wasStuck bool) {
 		}
 		// between two actions: the seating changes
 		if ev == "RoundStarted" && r.Intn(12) == 0 {
-			switch r.Intn(5) {
+			switch r.Intn(7) {
+			case 5: // the next blind level
+				k := int64(2 + r.Intn(2))
+				d, sb, bb := opts.Blind.Dealer*k, opts.Blind.SB*k, opts.Blind.BB*k
+				t.SetBlinds(d, sb, bb)
+				tr.emitWith("main", "T.SetBlinds", -1, -1, 0, nil, M{"blinds": []int64{d, sb, bb}})
+			case 6: // antes come in / go up
+				x := opts.Ante + 1
+				t.SetAnte(x)
+				tr.emit("main", "T.SetAnte", -1, -1, x, nil)
 			case 0, 1: // a new player takes an empty seat (and usually sits in)
 				empty := []int{}
 				for s := 0; s < opts.MaxSeats; s++ {
@@ -263,8 +355,7 @@ func tableRun(o *potsOut, run int, r *rand.Rand) (wasStuck bool) {
 			case 3: // somebody with chips comes back (a busted player who sat in again would be dealt in with nothing)
 				for s, p := range ts.Players {
 					if p.Bankroll > 0 {
-						e := t.Activate(s)
-						tr.emit("main", "T.Activate", s, -1, 0, e)
+						activate(s)
 						break
 					}
 				}
@@ -378,6 +469,12 @@ func tableRun(o *potsOut, run int, r *rand.Rand) (wasStuck bool) {
 			return
 		}
 	}
+	defer func() {
+		defer func() { recover() }()
+		if t.GetState().Status != "closed" {
+			t.Close()
+		}
+	}()
 	// a closed table: calls change nothing any more
 	if !tr.stuck && tr.cur.Status == "closed" {
 		for _, p := range tr.cur.Players {
